@@ -19,7 +19,7 @@ export PUBLISH_SKIP_BUILD=1 CARGO_NET_OFFLINE=true
 for p in $IDS; do
   BIN=$T/release/mc; [ "$p" = C18 ] && BIN=$T/release/ffi_audit
   s=$(date +%s)
-  LLVM_PROFILE_FILE="$P/$p-%p-%m.profraw" VERIF_ROOT="$R" "$BIN" "$p" "$TIER" 2>&1 | grep -E "^SUMMARY|^VIOLATION|MACHINERY" | cut -c1-200
+  VERIF_WATCHDOG_S=900 LLVM_PROFILE_FILE="$P/$p-%p-%m.profraw" VERIF_ROOT="$R" "$BIN" "$p" "$TIER" 2>&1 | grep -E "^SUMMARY|^VIOLATION|MACHINERY" | cut -c1-200
   echo "-- $p done in $(( $(date +%s) - s ))s"
 done
 "$LL/llvm-profdata" merge -sparse "$P"/*.profraw -o "$W/all.profdata" || exit 2
